@@ -3,50 +3,20 @@
    (build / select / cat), read every cell back through single-cell access, and
    compare with what the implementation showed.  Definitions only. *)
 From Coq Require Import String ZArith List Bool Arith.
-From PF Require Import Lib.ListX Lib.PySlice Model.Ragged Model.RaggedSpec Model.RaggedRun Model.Frame Model.FrameSpec
-     Gen.Tables.
+From PF Require Import Lib.ListX Lib.PySlice Model.Ragged Model.RaggedSpec Model.RaggedRun Model.RaggedCat Model.Frame
+     Model.FrameSpec Gen.Tables.
 Import ListNotations.
 Open Scope bool_scope.
 
 (* ------------------------------------------------------------------ *)
-(* Stand-in for the ragged containers' own cat (Model/RaggedCat.v of C06 when
-   it exists): defined on the cells, faithful to the argument checks of
-   MultiNestedTensor.cat / MultiEmbeddingTensor.cat. *)
+(* The ragged containers' own cat: the model of MultiNestedTensor.cat /
+   MultiEmbeddingTensor.cat of Model/RaggedCat.v (C06).  torch.empty contents
+   (junk) are irrelevant to the results; any instance will do. *)
 Definition mnt_cells (t : mnt payload) : option cmat := read_cells _ (mnt_kernels payload) t.
-
 Definition mnt_cat_run (ts : list (mnt payload)) (dim : nat) : option (mnt payload) :=
-  match ts with
-  | [] => None
-  | t0 :: _ =>
-      if dim =? 0 then
-        if forallb (fun t => nc t =? nc t0) ts then
-          ms <- mapM mnt_cells ts ;; Some (mnt_of_cells (nc t0) (concat ms))
-        else None
-      else
-        if forallb (fun t => nr t =? nr t0) ts then
-          ms <- mapM mnt_cells ts ;;
-          Some (mnt_of_cells (sum (map nc ts)) (map (fun i => concat (map (fun m => nth i m []) ms)) (seq 0 (nr t0))))
-        else None
-  end.
-
+  mnt_cat payload (fun _ => 0) (fun _ => None) ts (Z.of_nat dim).
 Definition met_cat_run (ts : list (met payload)) (dim : nat) : option (met payload) :=
-  match ts with
-  | [] => None
-  | [t] => Some t
-  | t0 :: _ =>
-      if dim =? 0 then
-        if forallb (fun t => (ec t =? ec t0) && (t2w (evals t) =? t2w (evals t0))) ts then
-          mk_met _ (sum (map er ts)) (ec t0)
-                 (MkT2 (concat (map (fun t => t2rows (evals t)) ts)) (t2w (evals t0))) (eoffs t0)
-        else None
-      else
-        if forallb (fun t => er t =? er t0) ts then
-          mk_met _ (er t0) (sum (map ec ts))
-                 (MkT2 (map (fun i => concat (map (fun t => nth i (t2rows (evals t)) []) ts)) (seq 0 (er t0)))
-                       (sum (map (fun t => t2w (evals t)) ts)))
-                 (fold_left (fun acc t => acc ++ map (fun o => o + last acc 0) (tl (eoffs t))) ts [0])
-        else None
-  end.
+  met_cat payload ts (Z.of_nat dim).
 
 (* ------------------------------------------------------------------ *)
 (* frame literals and expressions *)
@@ -214,4 +184,69 @@ Definition c07_stmt (e : fexpr) (p : list index) : bool :=
       | None => true
       end
   | _ => true
+  end.
+
+(* ------------------------------------------------------------------ *)
+(* C08: evaluate a (and b), observe the frames, a == b, b == a and column lookups on a *)
+Inductive lobs := LErr | LCol (s : stype) (o : featobs) | LUnreadable.
+
+(* 0 = False, 1 = True, 2 = __eq__ raised, 3 = an operand could not be built *)
+Definition eq_code (a b : option tframe) : nat :=
+  match a, b with
+  | Some fa, Some fb =>
+      match tf_eq Z.eqb fa fb with Some true => 1 | Some false => 0 | None => 2 end
+  | _, _ => 3
+  end.
+
+Definition lookup_obs (a : option tframe) (name : string) : lobs :=
+  match a with
+  | None => LErr
+  | Some fa =>
+      match tf_get_col_feat fa name with
+      | None => LErr
+      | Some (x, s) => match observe_feat x with Some o => LCol s o | None => LUnreadable end
+      end
+  end.
+
+Definition lobs_eqb (a b : lobs) : bool :=
+  match a, b with
+  | LErr, LErr => true
+  | LCol s o, LCol s' o' => stype_eqb s s' && featobs_eqb o o'
+  | _, _ => false
+  end.
+
+Definition c08_check (a : fexpr) (b : option fexpr) (names : list string)
+           (oa ob : fobs) (eab eba : nat) (lks : list lobs) : bool :=
+  let fa := eval a in
+  fobs_eqb (observe_opt fa) oa
+  && match b with
+     | None => true
+     | Some b' =>
+         let fb := eval b' in
+         fobs_eqb (observe_opt fb) ob && (eq_code fa fb =? eab) && (eq_code fb fa =? eba)
+     end
+  && list_eqb lobs_eqb (map (lookup_obs fa) names) lks.
+
+(* Executable form of the section hypotheses of Props/C08.v about the ragged
+   containers' own cat, on the views of one case: concatenating canonical
+   containers gives the canonical container of the concatenated cells. *)
+Definition c08_hyp_rows_mnt (c : nat) (ms : list cmat) : bool :=
+  match mnt_cat_run (map (mnt_of_cells c) ms) 0 with
+  | Some t => mnt_eqb t (mnt_of_cells c (concat ms))
+  | None => false
+  end.
+Definition c08_hyp_rows_met (ws : list nat) (ms : list cmat) : bool :=
+  match met_cat_run (map (met_of_cells ws) ms) 0 with
+  | Some t => met_eqb t (met_of_cells ws (concat ms))
+  | None => false
+  end.
+Definition c08_hyp_cols_mnt (n : nat) (cms : list (nat * cmat)) : bool :=
+  match mnt_cat_run (map (fun cm => mnt_of_cells (fst cm) (snd cm)) cms) 1 with
+  | Some t => mnt_eqb t (mnt_of_cells (sum (map fst cms)) (zip_rows n (map snd cms)))
+  | None => false
+  end.
+Definition c08_hyp_cols_met (n : nat) (wms : list (list nat * cmat)) : bool :=
+  match met_cat_run (map (fun wm => met_of_cells (fst wm) (snd wm)) wms) 1 with
+  | Some t => met_eqb t (met_of_cells (concat (map fst wms)) (zip_rows n (map snd wms)))
+  | None => false
   end.
